@@ -24,7 +24,7 @@ META = {
     "text": "TLC checks the line-number arithmetic model (rows of a parse unit, the unit's base line, directive body offset from the directive splitter, colon containers, included files with their own source) against the physical line of every frame and leaf for every layout within the bound; every layout is concretised with unique markers and replayed through the docutils front end, comparing .line/.source of every wrapper node, leaf node and warning; random deeper layouts are validated as traces by TLC.",
     "note": "Bound: paths <= 2 frames over 58 frame shapes (6 wrappers x option style x option count x blank lines x preceding siblings) x 6 leaf kinds x 2 preambles, and paths of 3 frames over a 12-shape subset. docutils front end (the Sphinx front end shares the renderer; its warning locations are printed by Sphinx). Two as-built deviations are open findings (lines inside an included file, body text on the fence line); a third (a ::: directive whose body starts with a ::: fence) was repaired.",
     "technique": "TLA+ spec + TLC exhaustive check; spec-behaviour replay into the code; TLC batch trace validation",
-    "specs": ["Lines", "LinesTrace"],
+    "specs": ["Lines", "LinesTrace", "Include"],
 }
 
 LEAVES = ["para", "heading", "code", "list", "target", "warn"]
@@ -319,6 +319,8 @@ def run(ctx):
     _findings(ctx, "V", suspects, traces, keep, base, verdicts)
     ctx.leg("V", traces=len(traces))
     _sphinx_include_leg(ctx)
+    from .. import include_slice
+    include_slice.leg(ctx, quick)
     shutil.rmtree(ctx.wd / "docs", ignore_errors=True)
     ctx.exhaustive = True
 
